@@ -43,6 +43,11 @@ pub const STREAMS: &[(&str, usize, usize)] = &[
     // infinite types: every way an occurs-check failure can arise × every way two inference variables
     // can have been unified with each other before (enumerated, then random compositions)
     ("occurs", 900, 6000),
+    // every kind of callee (each builtin of the real initial environment, builtin methods, user functions, constructors,
+    // closures, methods, extern functions, a builtin's name re-bound) × every argument count 0..declared+2 × every call
+    // context, through EVERY entry point (parse, compile, check_package, build_package, link_cores, the three queries).
+    // The counts are placeholders: the parent uses the length of the catalogue (harness/src/arity.rs)
+    ("call-arity", 0, 0),
     // features with known findings: kept out of the streams above so they cannot mask anything
     ("known-polyrec", 6, 12),
     ("known-artifact-core-ir", 200, 3000),
@@ -700,6 +705,13 @@ fn build_case(stream: &str, idx: usize, seed: u64, thorough: bool, corpus: &[(St
             let (tag, p) = occurs_case(idx, &mut r);
             (tag, Case::Text(p))
         }
+        "call-arity" => {
+            let cat = arity_catalogue(thorough);
+            match cat.get(idx) {
+                Some(c) => (c.tag.clone(), Case::Text(c.src.clone())),
+                None => ("none".into(), Case::Text(String::new())),
+            }
+        }
         "regress" => {
             let mut files: Vec<PathBuf> = std::fs::read_dir(util::verif_root().join("corpus/C04"))
                 .map(|rd| rd.filter_map(|e| e.ok().map(|e| e.path())).filter(|p| p.file_name().is_some_and(|n| n.to_string_lossy().starts_with("regress-"))).collect())
@@ -998,6 +1010,101 @@ fn run_text(w: &Watch, key: crash::Key, dir: &Path, src: &str, tally: &mut Tally
     }
 }
 
+fn arity_catalogue(thorough: bool) -> &'static Vec<crate::arity::ArityCase> {
+    static CAT: std::sync::OnceLock<Vec<crate::arity::ArityCase>> = std::sync::OnceLock::new();
+    CAT.get_or_init(|| crate::arity::catalogue(thorough))
+}
+
+/// `run_text` + the other entry points on the same single-file package: check_package, build_package,
+/// link_cores of what build_package produced (with the Go pretty printer), and the three editor queries at
+/// the start of every identifier / `(` / `)` token (at most 40 positions).
+fn run_text_full(w: &Watch, key: crash::Key, dir: &Path, src: &str, tally: &mut Tally, out: &mut Vec<Finding>) {
+    run_text(w, key, dir, src, tally, out);
+    let path = dir.join("main.gom");
+    let pan = |entry: &str, p: crash::PanicInfo, out: &mut Vec<Finding>| {
+        out.push(Finding { kind: "panic", entry: entry.to_string(), site: crash::site_of(&p), msg: format!("{} [{}:{}]", p.msg, crash::short_file(&p.file), p.line) });
+    };
+    let inputs = || PackageInputs { package: "Main".into(), input_files: vec![path.clone()], interface_paths: vec![] };
+    match w.guarded(0, key, || separate::check_package(inputs())) {
+        Guarded::Done(Ok(_)) => *tally.outcomes.entry("check:ok".into()).or_default() += 1,
+        Guarded::Done(Err(e)) => {
+            *tally.outcomes.entry(format!("check:err:{}", stage_name(&e))).or_default() += 1;
+            check_err("check_package", &e, Some(src), out)
+        }
+        Guarded::Panic(p) => {
+            *tally.outcomes.entry("check:panic".into()).or_default() += 1;
+            pan("check_package", p, out)
+        }
+    }
+    match w.guarded(0, key, || separate::build_package(inputs())) {
+        Guarded::Done(Ok(unit)) => {
+            *tally.outcomes.entry("build:ok".into()).or_default() += 1;
+            match w.guarded(0, key, || separate::link_cores(vec![unit])) {
+                Guarded::Done(Ok(l)) => {
+                    *tally.outcomes.entry("link:ok".into()).or_default() += 1;
+                    if let Guarded::Panic(p) = w.guarded(0, key, || l.go.to_pretty(&l.goenv, 120).len()) {
+                        pan("link/go_pprint", p, out)
+                    }
+                }
+                Guarded::Done(Err(e)) => {
+                    *tally.outcomes.entry(format!("link:err:{}", stage_name(&e))).or_default() += 1;
+                    check_err("link_cores", &e, None, out)
+                }
+                Guarded::Panic(p) => {
+                    *tally.outcomes.entry("link:panic".into()).or_default() += 1;
+                    pan("link_cores", p, out)
+                }
+            }
+        }
+        Guarded::Done(Err(e)) => {
+            *tally.outcomes.entry(format!("build:err:{}", stage_name(&e))).or_default() += 1;
+            check_err("build_package", &e, Some(src), out)
+        }
+        Guarded::Panic(p) => {
+            *tally.outcomes.entry("build:panic".into()).or_default() += 1;
+            pan("build_package", p, out)
+        }
+    }
+    // the editor queries on the same text
+    let mut positions: Vec<(u32, u32)> = Vec::new();
+    {
+        let (mut line, mut col) = (0u32, 0u32);
+        let mut prev_ident = false;
+        for ch in src.chars() {
+            let ident = ch.is_alphanumeric() || ch == '_';
+            if (ident && !prev_ident) || ch == '(' || ch == ')' || ch == '.' {
+                positions.push((line, col));
+                if ch == '(' || ch == '.' {
+                    positions.push((line, col + 1));
+                }
+            }
+            prev_ident = ident;
+            if ch == '\n' {
+                line += 1;
+                col = 0;
+            } else {
+                col += ch.len_utf8() as u32;
+            }
+        }
+    }
+    // keep the positions of the LAST lines (the items come first, the call under test last)
+    let skip = positions.len().saturating_sub(40);
+    let mut answered = 0usize;
+    for (l, c) in positions.into_iter().skip(skip) {
+        match w.guarded(0, key, || compiler::query::hover_type(&path, src, l, c).is_ok()) {
+            Guarded::Done(ok) => answered += ok as usize,
+            Guarded::Panic(p) => pan("query/hover_type", p, out),
+        }
+        if let Guarded::Panic(p) = w.guarded(0, key, || compiler::query::dot_completions(&path, src, l, c).map(|v| v.len()).unwrap_or(0)) {
+            pan("query/dot_completions", p, out)
+        }
+        if let Guarded::Panic(p) = w.guarded(0, key, || compiler::query::colon_colon_completions(&path, src, l, c).map(|v| v.len()).unwrap_or(0)) {
+            pan("query/colon_colon_completions", p, out)
+        }
+    }
+    *tally.outcomes.entry(if answered > 0 { "query:hover-answered".into() } else { "query:no-hover".into() }).or_default() += 1;
+}
+
 fn run_layout(w: &Watch, key: crash::Key, dir: &Path, files: &[(String, Vec<u8>)], entry: &str, tally: &mut Tally, out: &mut Vec<Finding>) {
     let root = dir.join("proj");
     let _ = std::fs::remove_dir_all(&root);
@@ -1251,23 +1358,30 @@ fn child(args: &util::Args, stream: &str, from: usize, to: usize, outfile: &Path
                 }
                 Guarded::Panic(p) => findings.push(Finding { kind: "panic", entry: "parser-primitives".into(), site: crash::site_of(&p), msg: p.msg }),
             },
+            Case::Text(s) if stream == "call-arity" => run_text_full(&watch, key, &dir, s, &mut tally, &mut findings),
             Case::Text(s) => run_text(&watch, key, &dir, s, &mut tally, &mut findings),
             Case::Layout { files, entry } => run_layout(&watch, key, &dir, files, entry, &mut tally, &mut findings),
             Case::Artifact { what, target, content } => run_artifact(&watch, key, &dir, &kit, what, target, content, &mut tally, &mut findings),
         }
-        // minimise the first witness of every panic site this child sees (text cases only)
-        let mut minimal: BTreeMap<String, String> = BTreeMap::new();
+        // minimise the first witness of every (entry point, panic site) this child sees (text cases only): the
+        // shrunk text must still make THAT entry point panic at THAT site (the queries type-check texts that
+        // compile rejects at the parser, so a witness for one entry is not a witness for another)
+        let mut minimal: BTreeMap<(String, String), String> = BTreeMap::new();
         if let Case::Text(src) = &case {
             for fd in findings.iter().filter(|f| f.kind == "panic") {
-                if shrunk_sites.insert(fd.site.clone()) {
-                    let site = fd.site.clone();
+                if shrunk_sites.insert(format!("{}\u{0}{}", fd.entry, fd.site)) {
+                    let (entry, site) = (fd.entry.clone(), fd.site.clone());
                     let mut scratch = Tally { outcomes: BTreeMap::new() };
                     let mut pred = |cand: &str| {
                         let mut fs = Vec::new();
-                        run_text(&watch, key, &dir, cand, &mut scratch, &mut fs);
-                        fs.iter().any(|f| f.kind == "panic" && f.site == site)
+                        if stream == "call-arity" {
+                            run_text_full(&watch, key, &dir, cand, &mut scratch, &mut fs);
+                        } else {
+                            run_text(&watch, key, &dir, cand, &mut scratch, &mut fs);
+                        }
+                        fs.iter().any(|f| f.kind == "panic" && f.site == site && f.entry == entry)
                     };
-                    minimal.insert(fd.site.clone(), crash::shrink_text(src, &mut pred, 600));
+                    minimal.insert((fd.entry.clone(), fd.site.clone()), crash::shrink_text(src, &mut pred, 600));
                 }
             }
         }
@@ -1275,7 +1389,7 @@ fn child(args: &util::Args, stream: &str, from: usize, to: usize, outfile: &Path
         if !findings.is_empty() {
             let repr = case_repr(&case);
             for fd in &findings {
-                let text = minimal.get(&fd.site).cloned().unwrap_or_else(|| repr.clone());
+                let text = minimal.get(&(fd.entry.clone(), fd.site.clone())).cloned().unwrap_or_else(|| repr.clone());
                 let _ = writeln!(f, "F\t{}\t{}\t{}\t{}\t{}\t{}\t{}\t{}", stream, idx, fd.kind, fd.entry, fd.site, esc_line(&fd.msg), esc_line(&tag), esc_line(&text));
             }
         } else if sample_budget > 0 && idx % 97 == 3 {
@@ -1284,7 +1398,7 @@ fn child(args: &util::Args, stream: &str, from: usize, to: usize, outfile: &Path
         }
         {
             let outs: Vec<String> = tally.outcomes.iter().map(|(k, v)| format!("{}={}", k, v)).collect();
-            let keep_tag = stream == "occurs" || stream == "gen-ok" || stream == "gen-ill" || stream == "nest" || stream == "layout" || stream.contains("artifact");
+            let keep_tag = stream == "call-arity" || stream == "occurs" || stream == "gen-ok" || stream == "gen-ill" || stream == "nest" || stream == "layout" || stream.contains("artifact");
             let _ = writeln!(f, "R\t{}\t{}\t{}\t{}", stream, idx, outs.join(" "), if keep_tag { esc_line(&tag) } else { String::new() });
             tally.outcomes.clear();
         }
@@ -1433,7 +1547,7 @@ pub fn main(args: &util::Args) {
         let watch = Watch::start(1, Duration::from_secs(10), Box::new(|_| println!("HANG")));
         let mut tally = Tally { outcomes: BTreeMap::new() };
         let mut findings = Vec::new();
-        run_text(&watch, [0; 4], &dir, &src, &mut tally, &mut findings);
+        run_text_full(&watch, [0; 4], &dir, &src, &mut tally, &mut findings);
         let mut out = String::new();
         for fd in &findings {
             writeln!(out, "F\treplay\t0\t{}\t{}\t{}\t{}\t\t{}", fd.kind, fd.entry, fd.site, esc_line(&fd.msg), esc_line(&src)).unwrap();
@@ -1443,9 +1557,15 @@ pub fn main(args: &util::Args) {
     }
     // chunks
     let mut chunks: Vec<(String, usize, usize)> = Vec::new();
+    let only = args.rest.iter().position(|a| a == "--only").and_then(|i| args.rest.get(i + 1)).cloned();
     for (name, q, t) in STREAMS {
+        if only.as_deref().is_some_and(|o| o != *name) {
+            continue;
+        }
+        let (q, t) = if *name == "call-arity" { (arity_catalogue(thorough).len(), arity_catalogue(thorough).len()) } else { (*q, *t) };
+        let (q, t) = (&q, &t);
         let n = args.n.map(|n| n.min(*t)).unwrap_or(if thorough { *t } else { *q });
-        let size = n.div_ceil(if n > 800 || *name == "nest" { 8 } else if n > 100 { 2 } else { 1 }).max(1);
+        let size = n.div_ceil(if *name == "call-arity" { 16 } else if n > 800 || *name == "nest" { 8 } else if n > 100 { 2 } else { 1 }).max(1);
         let mut a = 0;
         while a < n {
             chunks.push((name.to_string(), a, (a + size).min(n)));
